@@ -421,6 +421,8 @@ def gen_world(src, profile):
             # plain subclass overriding the class attribute of a defaulted scalar attr
             q = {"name": "Q", "kind": "plain", "bases": ["M"], "opts": {}, "attrs": []}
             cands = [a for a in attrs if a["default"][0] != "none" and a["default"][0] != "attr_none"]
+            if profile.get("redefault_undefaulted", True):
+                cands = cands + [a for a in attrs if a["default"][0] == "none"]  # the subclass is the first to give it a default
             if cands:
                 a = src.pick(cands)
                 q["redefaults"] = {a["name"]: conforming_default(gen_value(src, a["type"], True), a["type"])}
